@@ -440,6 +440,32 @@ def run(ctx):
         ctx.ob('4x index-walk-covers-queued-tables', 'K9-agreement', ii_root.path,
                'the index walk that feeds migration visits the same tables a lookup searches: the current index and every index table still in the reindex queue (a cleanly closed database may have a growth in progress)',
                reads_queue(ii_root), 'iter_index_internal reads tables.index only; HashColumn::get also walks Reindex.queue')
+    if ii_root is not None and ii is not None and ii is not ii_root:
+        # de-duplication across generations: the per-table walk is handed the tables walked BEFORE the one it walks - all of them (an
+        # entry copied from the oldest table straight into the current one is in no table in between)
+        bad, seen = [], 0
+        for bi, t in ii_root.calls():
+            if bi not in ii_root.normal_blocks() or ii.path not in call_names(t):
+                continue
+            for a in t['a']:
+                if op_place(a) is None or not re.search(r'^&\[&index::IndexTable\]$', str(ii_root.locals[op_place(a)[0]])):
+                    continue
+                seen += 1
+                sl = backward_slice(ii_root, [op_place(a)])
+                rng = [x for l in sl.locals for x in ii_root.defs().get(l, []) if x[2] == 'assign' and x[3]['r']['k'] == 'agg' and re.search(r'ops::Range(To|From|Inclusive|ToInclusive|Full)?$', str(x[3]['r']['ak']))]
+                for x in rng:
+                    ak = str(x[3]['r']['ak'])
+                    if ak.endswith('RangeTo'):
+                        continue
+                    if ak.endswith('ops::Range') and x[3]['r']['a'] and x[3]['r']['a'][0].get('i') == 0:
+                        continue
+                    bad.append('%s at %s' % (ak.split('::')[-1], ii_root.loc(x[0])))
+                if any(re.search(r'::(saturating_sub|checked_sub|wrapping_sub|skip|take|last|rev|windows|split_at|split_last)$', c) for c in sl.calls):
+                    bad.append('the list is trimmed by %s' % sorted(c.split('::')[-1] for c in sl.calls if re.search(r'::(saturating_sub|checked_sub|wrapping_sub|skip|take|last|rev|windows|split_at|split_last)$', c))[:2])
+        if seen:
+            ctx.ob('4y every-older-table-consulted', 'K4-provenance', ii_root.path,
+                   'the list of already walked index tables that the per-table walk consults (to skip an entry reported before) is the whole prefix of the walk order, not a window of it',
+                   not bad, '; '.join(bad[:3]))
     def range_from_consts(b):
         out = []
         for blk in b.blocks:
